@@ -411,6 +411,9 @@ def render_b(B):
     return out
 
 
+DD_COUNT = [0]
+
+
 def gen_tail(rng, c, env, klass):
     """what follows mage's own flags: [--] [flags of the compiled program] [target words]"""
     c.update(dd=False, B=[], twords=None)
@@ -419,7 +422,9 @@ def gen_tail(rng, c, env, klass):
         if klass == "matrix" and r < 0.12:       # flag-like words behind the first target are words
             c["twords"] = ["probearg", rng.choice(["--", "-v", "-l", "-t", "-h", "-x", "plain", "a=b", "-"])]
         return
-    shape = rng.choice(["flags", "flags", "flags", "bad", "list", "help", "last", "behind-target", "twice", "row1", "row4", "helpflag"])
+    shapes = ["flags", "bad", "list", "row1", "help", "flags", "last", "bad", "behind-target", "twice", "row4", "helpflag", "flags", "bad"]
+    shape = shapes[DD_COUNT[0] % len(shapes)]          # every shape in every run, the rest of the configuration random
+    DD_COUNT[0] += 1
     c["shape"] = shape
     c["dd"] = True
     for k in (b"MAGEFILE_LIST", b"MAGEFILE_HELP"):
@@ -622,7 +627,9 @@ def run_cfg(cfg, proj, m, conv, gocache, rng_payload):
     env_v.update(own_v)
     r = run_proc([proj.bin] + tail_b, expect_cwd, env_v, stdin=stdin)
     runs.append({"route": "bin-vars", "given": g_v, "argv": tail_b, "env": env_v, "own": own_v, "cwd": expect_cwd, "obs": observe(r, stdin), "raw": r})
-    return {"runs": runs, "expect_cwd": expect_cwd, "stdin": stdin, "base": base, "words": words,
+    # a "--" standing where the compiled program still expects flags ends ITS flags and is consumed
+    acted = words[1:] if (words and words[0] == "--") else words
+    return {"runs": runs, "expect_cwd": expect_cwd, "stdin": stdin, "base": base, "words": acted,
             "expect_rejected": any(it[0] in B_BAD for it in B), "expect_usage": any(it[0] == "help" for it in B)}
 
 
@@ -763,6 +770,8 @@ def oracle(cfg, proj, res, conv):
             continue
         diffs = []
         for k in ("mode", "verbose", "verbose_log", "debug", "gocmd", "timeout", "text", "words"):
+            if k == "text" and mo.get("mode") in ("usage", "rejected"):
+                continue       # the usage text names the program by the base name of its file (cache hash / "mage")
             if mo.get(k) != bo.get(k):
                 diffs.append((k, mo.get(k), bo.get(k)))
         if mo.get("env") is not None and bo.get("env") is not None:
@@ -809,62 +818,119 @@ def coq_case(cfg, proj, res, run, conv, bools):
     o = run["obs"]
     own = run["own"]
     route = run["route"]
-    tflag = conv["dur"].get(cfg["t"]) if cfg["t"] is not None else None
-    none_flags = "{| f_v := None; f_debug := None; f_l := None; f_h := None; f_t := None; f_gocmd := None; f_d := None; f_w := None |}"
-    none_cflags = "no_cflags"
     resolve = []
     if route == "mage":
-        flags = "{| f_v := %s; f_debug := %s; f_l := %s; f_h := %s; f_t := %s; f_gocmd := %s; f_d := %s; f_w := %s |}" % (
-            opt_bool(flag_bool(cfg["v"])), opt_bool(flag_bool(cfg["debug"])), opt_bool(cfg["l"]), opt_bool(cfg["h"]),
-            coq_opt(coq_Z(tflag)) if cfg["t"] is not None else "None",
-            coq_opt(cs(cfg["gocmd"].encode())) if cfg["gocmd"] is not None else "None",
-            coq_opt(cs(run["dstr"].encode())) if run["dstr"] is not None else "None",
-            coq_opt(cs(run["wstr"].encode())) if run["wstr"] is not None else "None")
-        cflags = none_cflags
         d0 = run["dstr"] if run["dstr"] else "."
         for s in {".", d0, d0 + "/magefiles"} | ({run["wstr"]} if run["wstr"] else set()):
             resolve.append((s.encode(), os.path.realpath(os.path.join(run["cwd"], s)).encode()))
-    else:
-        flags = none_flags
-        if route == "bin-flags":
-            cflags = "{| c_v := %s; c_l := %s; c_h := %s; c_t := %s |}" % (
-                opt_bool(flag_bool(cfg["v"])), opt_bool(cfg["l"]), opt_bool(cfg["h"]), coq_opt(coq_Z(tflag)) if cfg["t"] is not None else "None")
-        else:
-            cflags = none_cflags
-    # tables of the external functions, actual values from the Go standard library
-    durs = set()
-    for e in (own,):
-        if b"MAGEFILE_TIMEOUT" in e:
-            durs.add(e[b"MAGEFILE_TIMEOUT"])
-    durstr = []
-    if tflag is not None:
-        durstr.append((tflag, conv["durstr"][tflag]))
-        durs.add(conv["durstr"][tflag].encode())
-    dur_tab = coq_list(["(%s, %s)" % (cs(s), coq_opt(coq_Z(conv["dur"][s.decode("latin-1")])) if conv["dur"].get(s.decode("latin-1")) is not None else "None") for s in sorted(durs)])
+    # tables of the external functions, actual values from the Go standard library: every word of the command line
+    # (and every "=value") that time.ParseDuration accepts, the variable's value, and the renderings of those durations
+    cands = set()
+    for w in run["argv"]:
+        cands.add(w)
+        if "=" in w:
+            cands.add(w.split("=", 1)[1])
+    if b"MAGEFILE_TIMEOUT" in own:
+        cands.add(own[b"MAGEFILE_TIMEOUT"].decode("latin-1"))
+    durstr = {}
+    for w in list(cands):
+        n = conv["dur"].get(w)
+        if n is not None and n in conv["durstr"]:
+            durstr[n] = conv["durstr"][n]
+            cands.add(conv["durstr"][n])
+    dur_tab = coq_list(["(%s, %s)" % (cs(w.encode("latin-1")), coq_opt(coq_Z(conv["dur"][w])) if conv["dur"].get(w) is not None else "None")
+                        for w in sorted(cands) if w in conv["dur"]])
     keys = sorted(set(own) | set(SIX) | {b"GOOS", b"GOARCH", b"HOME", b"GOFLAGS", b"NOSUCH_VARIABLE", b"MAGEFILE_CACHE", b"MAGEFILE_HASHFAST"})
     layout = "{| has_magefiles_dir := %s; top_has_magefiles := %s |}" % (coq_bool(proj.layout in ("mfdir", "both")), coq_bool(proj.layout in ("plain", "both")))
-    mode = {"run": "MRun", "list": "MList", "help": "MHelp", "usage": "MUsage"}.get(o["mode"], "MUsage")
+    mode = {"run": "(OMode MRun)", "list": "(OMode MList)", "help": "(OMode MHelp)", "usage": "(OMode MUsage)", "rejected": "ORejected"}.get(o["mode"], "(OMode MUsage)")
     stream = {"stdout": "(Some CallerStdout)", "stderr": "(Some CallerStderr)", None: "None"}
     if o["mode"] == "run" and o.get("timeout") != -1:
         build = os.path.join(proj.d, "magefiles") if o["origin"] == "mfdir" else proj.d
-        obs = ("{| o_mode := MRun; o_verbose_log := %s; o_verbose := %s; o_debug := %s; o_gocmd := %s; o_timeout := %s; o_cwd := %s; o_build := %s; "
-               "o_env := %s; o_stdin := %s; o_stdout := %s; o_stderr := %s |}") % (
+        obs = ("{| o_mode := OMode MRun; o_verbose_log := %s; o_verbose := %s; o_debug := %s; o_gocmd := %s; o_timeout := %s; o_cwd := %s; o_build := %s; "
+               "o_env := %s; o_stdin := %s; o_stdout := %s; o_stderr := %s; o_words := %s |}") % (
             coq_bool(o["verbose_log"]), coq_bool(o["verbose"]), coq_bool(o["debug"]), cs(o["gocmd"]), coq_Z(o["timeout"]),
             cs(o["cwd"].encode()) if route == "mage" else '""', cs(build.encode()) if route == "mage" else '""',
             coq_list(["(%s, %s)" % (cs(k), coq_opt(cs(o["env"][k])) if k in o["env"] else "None") for k in keys]),
-            "(Some CallerStdin)" if o["stdin_ok"] else "None", stream[o["stdout_on"]], stream[o["stderr_on"]])
+            "(Some CallerStdin)" if o["stdin_ok"] else "None", stream[o["stdout_on"]], stream[o["stderr_on"]],
+            coq_list([cs(w) for w in o["words"]]))
     else:
-        obs = ("{| o_mode := %s; o_verbose_log := false; o_verbose := false; o_debug := false; o_gocmd := \"\"; o_timeout := %s; o_cwd := \"\"; o_build := \"\"; "
-               "o_env := []; o_stdin := None; o_stdout := None; o_stderr := None |}") % (mode, coq_Z(o.get("timeout", 0) or 0))
+        obs = "(let b := blank %s in {| o_mode := o_mode b; o_verbose_log := false; o_verbose := false; o_debug := false; o_gocmd := \"\"; o_timeout := %s; o_cwd := \"\"; o_build := \"\"; o_env := []; o_stdin := None; o_stdout := None; o_stderr := None; o_words := [] |})" % (
+            mode, coq_Z(o.get("timeout", 0) or 0))
     # the caller's environment: the entries shared by all runs (header), this project's cache, this run's own
     envterm = "(base ++ %s)" % coq_env([(b"MAGEFILE_CACHE", run["env"][b"MAGEFILE_CACHE"])] + [(k, v) for k, v in own.items() if k != b"MAGEFILE_CACHE"])
-    return ("{| c_route := %s; c_flags := %s; c_cflags := %s; c_env := %s; c_layout := %s; c_nargs := %d; c_default := true; c_durs := %s; c_durstr := %s; "
+    return ("{| c_route := %s; c_words := %s; c_env := %s; c_layout := %s; c_default := \"probe\"; c_durs := %s; c_durstr := %s; "
             "c_bools := %s; c_resolve := %s; c_keys := %s; c_obs := %s |}") % (
-        "ViaMage" if route == "mage" else "ViaBinary", flags, cflags, envterm, layout, (1 if cfg["word"] else 0), dur_tab,
-        coq_list(["(%s, %s)" % (coq_Z(n), cs(s.encode())) for n, s in durstr]),
-        coq_list(["(%s, %s)" % (cs(s), opt_bool(conv["bool"][s])) for s in bools]),
+        "ViaMage" if route == "mage" else "ViaBinary", coq_list([cs(w.encode("utf-8", "surrogateescape")) for w in run["argv"]]), envterm, layout, dur_tab,
+        coq_list(["(%s, %s)" % (coq_Z(n), cs(t.encode())) for n, t in sorted(durstr.items())]),
+        coq_list(["(%s, %s)" % (cs(t), opt_bool(conv["bool"][t])) for t in bools]),
         coq_list(["(%s, %s)" % (cs(a), cs(b)) for a, b in resolve]),
         coq_list([cs(k) for k in keys]), obs)
+
+
+# ---------------------------------------------------------------- Go's flag package: cl_parse against a real flag.FlagSet
+PW_FLAGS = ["v", "l", "h", "t", "debug", "d", "w", "gocmd", "f", "keep", "compile", "goos", "init", "version", "clean", "ldflags", "goarch",
+            "x", "help", "V", "tt", "vv"]
+PW_VALUES = ["true", "false", "1", "0", "T", "junk", "", "5m", "1h30m", "xyz", "0", "-5s", "90", "a b", "--", "-v", "x=y", "=", "é", "go"]
+PW_WORDS = ["-", "--", "---x", "-=", "-=x", "--=x", "", "plain", "probe", "-help", "--help", "-h", "--h=false", "-x", "a=b", "- v", "-v-", "--v"]
+
+
+def gen_parse_words(rng):
+    n = rng.choice([0, 1, 1, 2, 3, 3, 4, 5, 6, 8])
+    ws = []
+    for _ in range(n):
+        r = rng.random()
+        if r < 0.55:
+            name = rng.choice(PW_FLAGS)
+            dash = rng.choice(["-", "-", "--"])
+            form = rng.random()
+            if form < 0.4:
+                ws.append(dash + name)
+            elif form < 0.7:
+                ws.append(dash + name + "=" + rng.choice(PW_VALUES))
+            else:
+                ws += [dash + name, rng.choice(PW_VALUES)]
+        elif r < 0.8:
+            ws.append(rng.choice(PW_WORDS))
+        else:
+            ws.append(rng.choice(PW_VALUES))
+    return ws
+
+
+def parser_cases(ctx, binp, n, reqs=None):
+    """word lists through a real flag.FlagSet (harness/c11conv) and through Model/FlagPkg.cl_parse"""
+    rng = ctx.rng
+    if reqs is None:
+        reqs = [{"front": rng.random() < 0.6, "words": gen_parse_words(rng)} for _ in range(n)]
+    cands = set()
+    for q in reqs:
+        for w in q["words"]:
+            cands.add(w)
+            for i, ch in enumerate(w):
+                if ch == "=":
+                    cands.add(w[i + 1:])
+    cands = sorted(cands)
+    rc, out, err = sh([binp], input=json.dumps({"parse": reqs, "durs": cands}).encode(), timeout=120)
+    if rc != 0:
+        raise BuildError("c11conv failed: " + err[-500:])
+    a = json.loads(out)
+    dur = dict(zip(cands, a["durs"]))
+    items = []
+    verd = {}
+    for q, r in zip(reqs, a["parse"]):
+        verd[r["verdict"]] = verd.get(r["verdict"], 0) + 1
+        mine = set()
+        for w in q["words"]:
+            mine.add(w)
+            for i, ch in enumerate(w):
+                if ch == "=":
+                    mine.add(w[i + 1:])
+        tab = coq_list(["(%s, %s)" % (cs(w.encode()), coq_opt(coq_Z(dur[w])) if dur[w] is not None else "None") for w in sorted(mine)])
+        sets = coq_list(["(%s, %s)" % (cs(nm.encode()), {"b": lambda v: "VB %s" % v, "d": lambda v: "VD %s" % coq_Z(int(v)), "s": lambda v: "VS %s" % cs(v.encode())}[k](v))
+                         for nm, k, v in r["set"]])
+        items.append("{| p_front := %s; p_words := %s; p_durs := %s; p_verdict := %s; p_set := %s; p_rest := %s |}" % (
+            coq_bool(q["front"]), coq_list([cs(w.encode()) for w in q["words"]]), tab, {"ok": "VOk", "help": "VHelp", "bad": "VBad"}[r["verdict"]],
+            sets, coq_list([cs(w.encode()) for w in r["rest"]])))
+    return reqs, a["parse"], items, verd
 
 
 # ---------------------------------------------------------------- the check
@@ -876,6 +942,10 @@ def stdconv(ctx, cfgs):
     for c in cfgs:
         if c["t"] is not None:
             durs.add(c["t"])
+        for w in render_b(c.get("B") or []) + (c.get("twords") or []):
+            durs.add(w)
+            if "=" in w:
+                durs.add(w.split("=", 1)[1])
         for k, v in c["env"]:
             if unhx(k) == b"MAGEFILE_TIMEOUT":
                 durs.add(unhx(v).decode("latin-1"))
@@ -897,11 +967,11 @@ def stdconv(ctx, cfgs):
     q3 = {"bools": [], "durs": sorted(set(a2["durstrs"]) - set(durs)), "durstrs": []}
     rc, out3, err = sh([binp], input=json.dumps(q3).encode(), timeout=60)
     conv["dur"].update(dict(zip(q3["durs"], json.loads(out3)["durs"])))
-    return conv, bools
+    return conv, bools, binp
 
 
 def run(ctx):
-    ctx.prove(["Props/C11.vo", "Run/eval_C11.vo"])
+    ctx.prove(["Props/C11.vo", "Run/eval_C11.vo"], extra_props=["Compose_C11_C12_C05"])
     ctx.trusted_base += [
         "checks/c11.py (project generator, probe target, runner, Coq printer, oracle) + lib/projlib.py (project layout, mage build)",
         "harness/c11conv: strconv.ParseBool / time.ParseDuration / Duration.String of the Go standard library feed the model's parameters",
@@ -911,6 +981,7 @@ def run(ctx):
     ]
     rng = ctx.rng
     quick = ctx.quick
+    DD_COUNT[0] = 0
     m = projlib.Mage(ctx)
     gowrap = os.path.join(os.path.realpath(ctx.tmp), "gowrap")
     with open(gowrap, "w") as f:
@@ -923,12 +994,12 @@ def run(ctx):
     # configurations
     nproj = 12 if quick else 16
     layouts = (["plain", "mfdir", "plain", "both"] * 4)[:nproj]
-    counts = ({"matrix": 60, "default": 12, "listhelp": 10, "explicit-off": 6, "echo": 14, "alt": 6} if quick else
-              {"matrix": 1500, "default": 200, "listhelp": 120, "explicit-off": 40, "echo": 200, "alt": 40})
+    counts = ({"matrix": 54, "dashdash": 20, "default": 10, "listhelp": 8, "explicit-off": 6, "echo": 12, "alt": 6} if quick else
+              {"matrix": 1500, "dashdash": 400, "default": 200, "listhelp": 120, "explicit-off": 40, "echo": 200, "alt": 40})
     cfgs = []
     if ctx.replay and ctx.replay.get("case"):
-        cfgs = [ctx.replay["case"]]
-        layouts = [cfgs[0]["layout"]]
+        cfgs = [] if ctx.replay["case"].get("parser_words") is not None else [ctx.replay["case"]]
+        layouts = [ctx.replay["case"]["layout"]]
         nproj = 1
     else:
         i = 0
@@ -937,7 +1008,7 @@ def run(ctx):
                 cfgs.append(gen_cfg(rng, klass, layouts[i % nproj], gowrap, quick))
                 i += 1
     ctx.log('mage built; %d configurations' % len(cfgs))
-    conv, bools = stdconv(ctx, cfgs)
+    conv, bools, convbin = stdconv(ctx, cfgs)
     ctx.log('stdconv done')
     # projects: one per worker (a project directory holds the generated main file while mage runs)
     projs = [Proj(m, ctx, i, layouts[i]) for i in range(nproj)]
@@ -972,7 +1043,7 @@ def run(ctx):
     # oracle + Coq cases
     items, item_cfg = [], []
     dist = {"routes": {}, "modes": {}, "clauses": {}, "v_flag": {}, "debug_flag": {}, "MAGEFILE_VERBOSE": {}, "MAGEFILE_DEBUG": {}, "gocmd": {}, "v_x_var": {}, "debug_x_var": {},
-            "caller_GOOS_GOARCH": {}, "timeout": {}, "d": {}, "w": {}, "layout": {}, "stdin": {}, "extras": {}, "echo": {}}
+            "caller_GOOS_GOARCH": {}, "timeout": {}, "d": {}, "w": {}, "layout": {}, "tail": {}, "stdin": {}, "extras": {}, "echo": {}}
 
     def bump(d, k):
         dist[d][str(k)] = dist[d].get(str(k), 0) + 1
@@ -1005,6 +1076,8 @@ def run(ctx):
         bump("v_x_var", "flag %s x var %s" % (flag_bool(c["v"]), own.get(b"MAGEFILE_VERBOSE")))
         bump("debug_x_var", "flag %s x var %s" % (flag_bool(c["debug"]), own.get(b"MAGEFILE_DEBUG")))
         bump("timeout", ("flag " + c["t"] if c["t"] else "") + (" var %r" % own[b"MAGEFILE_TIMEOUT"] if b"MAGEFILE_TIMEOUT" in own else ""))
+        if c.get("dd") or c.get("twords"):
+            bump("tail", "%s%s %s" % ("-- " if c.get("dd") else "", " ".join(render_b(c.get("B") or [])), " ".join(c.get("twords") or [])))
         bump("stdin", c["stdin"] + ("" if c["word"] else " (default target, no word)"))
         for k in own:
             if not k.startswith(b"MAGEFILE_VERBOSE") and k not in SIX:
@@ -1027,6 +1100,20 @@ def run(ctx):
               "Definition base : env := %s.\n" % coq_env(base_items))
     ctx.log('oracle done, %d model cases' % len(items))
     mism = ctx.coq_eval_shards("cases_C11", header, items, per_shard=max(8, (len(items) + NCPU - 1) // NCPU)) if items else []
+    # Go's flag package: Model/FlagPkg.cl_parse against a real flag.FlagSet with the same definitions
+    pmism, preqs, pans, pverd = [], [], [], {}
+    if not (ctx.replay and ctx.replay.get("case")) or ctx.replay["case"].get("parser_words") is not None:
+        fixed = None
+        if ctx.replay and ctx.replay.get("case"):
+            fixed = [{"front": ctx.replay["case"]["front"], "words": ctx.replay["case"]["parser_words"]}]
+        preqs, pans, pitems, pverd = parser_cases(ctx, convbin, 320 if quick else 6000, fixed)
+        pheader = "From Mage Require Import Base.Strs Model.Flags Run.eval_C11.\nDefinition mismatches := pmismatches.\n"
+        pmism = ctx.coq_eval_shards("pcases_C11", pheader, pitems, per_shard=max(20, (len(pitems) + NCPU - 1) // NCPU))
+        for idx, body in pmism[:3]:
+            ctx.violation({"kind": "model-vs-implementation", "correspondence": "Run/eval_C11.pmismatches (Model/FlagPkg.cl_parse vs flag.FlagSet)",
+                           "flag_set": "mage" if preqs[idx]["front"] else "generated main", "words": preqs[idx]["words"],
+                           "flag.FlagSet": pans[idx], "model_says": body[:800]},
+                          case={"parser_words": preqs[idx]["words"], "front": preqs[idx]["front"], "layout": "plain"}, found_input=False)
     if mism and not ctx.violations:
         for idx, body in mism[:3]:
             ci, route = item_cfg[idx]
@@ -1047,6 +1134,7 @@ def run(ctx):
     cov["platform_constrained_magefiles"] = {"c11_%d" % i: p.plat for i, p in enumerate(projs)}
     cov["host"] = "%s/%s" % (HOST[0], HOST[1])
     cov["distribution"] = dist
+    cov["flag_package_cases"] = {"word_lists": len(preqs), "verdicts_of_flag.FlagSet": pverd, "mismatches": len(pmism)}
     cov["model_cases"] = len(items)
     cov["model_mismatches"] = len(mism)
     cov["traces_validated_against_impl"] = len(items) - len(mism)
